@@ -213,6 +213,11 @@ func buildOverlay(scratch string, spec overlaySpec) (string, error) {
 		for _, e := range ients {
 			if strings.HasSuffix(e.Name(), ".go") {
 				base := strings.TrimSuffix(e.Name(), ".go")
+				if strings.HasSuffix(base, "_nontest") {
+					// a helper that must NOT live in a test file (what the library decides from the caller's file name)
+					repl[filepath.Join(dir, "zz_verif_"+strings.TrimSuffix(base, "_nontest")+".go")] = filepath.Join(idir, e.Name())
+					continue
+				}
 				base = strings.TrimSuffix(base, "_test")
 				repl[filepath.Join(dir, "zz_verif_"+base+"_test.go")] = filepath.Join(idir, e.Name())
 			}
